@@ -176,6 +176,20 @@ func (s Snapshot) Hash() string {
 	return hex.EncodeToString(h.Sum(nil))[:20]
 }
 
+// Counts is the per-table row-count signature of the snapshot ("how much was written", whatever the ids).
+func (s Snapshot) Counts() string {
+	keys := make([]string, 0, len(s))
+	for k := range s {
+		keys = append(keys, k)
+	}
+	sort.Strings(keys)
+	var sb strings.Builder
+	for _, k := range keys {
+		fmt.Fprintf(&sb, "%s=%d;", k, len(s[k]))
+	}
+	return sb.String()
+}
+
 // Rows counts the rows of the snapshot.
 func (s Snapshot) Rows() int {
 	n := 0
@@ -338,6 +352,7 @@ type Probe struct {
 	// Hashes[j]: snapshot hash right after the (j+1)-th writing commit (only when WantHashes)
 	WantHashes bool
 	Hashes     []string
+	Counts     []string
 	tables     []tableRef
 }
 
@@ -402,6 +417,7 @@ func (p *Probe) Install(e *Env, ledger, bucket string, cancel context.CancelFunc
 				}
 			}
 			p.Hashes = append(p.Hashes, snap.Hash())
+			p.Counts = append(p.Counts, snap.Counts())
 		}
 	}
 }
@@ -440,6 +456,8 @@ type Program struct {
 	Changed bool     `json:"changed"`
 	// Hashes[0] = snapshot before the request, Hashes[j] = right after its j-th writing commit
 	Hashes []string `json:"hashes"`
+	// Counts[j]: per-table row counts of the same states
+	Counts []string `json:"counts"`
 	Final  string   `json:"final"`
 }
 
@@ -483,7 +501,7 @@ func Measure(base *Env, worker string, rq Req, warm ...bool) (Program, error) {
 	}
 	return Program{N: p.N, Commits: append([]int{}, p.Commits...), Writes: writes, Kinds: p.Kinds, Status: res.Status, OK: res.OK,
 		Events: len(f.St.Listener.Snapshot()), Changed: before.Hash() != after.Hash(),
-		Hashes: append([]string{before.Hash()}, p.Hashes...), Final: after.Hash()}, nil
+		Hashes: append([]string{before.Hash()}, p.Hashes...), Counts: append([]string{before.Counts()}, p.Counts...), Final: after.Hash()}, nil
 }
 
 var (
@@ -533,12 +551,16 @@ type FaultObs struct {
 	Hash      string `json:"hash"`       // snapshot hash after the run (comparable within one process only)
 	// StateIdx: the indices j such that the snapshot after the run equals the snapshot a clean run of the same
 	// request shows after its j-th writing commit (0: the state before the request). Empty: none of them.
-	StateIdx []int    `json:"stateIdx"`
-	Diff     []string `json:"diff,omitempty"`
-	Res      *ReqRes  `json:"res,omitempty"`
-	Incon    string   `json:"inconclusive,omitempty"`
-	EvKinds  []string `json:"evKinds"`
-	EvTx     []int    `json:"evTx"`
+	StateIdx []int `json:"stateIdx"`
+	// RowsIdx: the same with per-table row counts instead of contents (a transparently retried request ends
+	// with other ids than the clean run but must have written exactly as much); Counts is the signature itself
+	RowsIdx []int    `json:"rowsIdx"`
+	Counts  string   `json:"counts"`
+	Diff    []string `json:"diff,omitempty"`
+	Res     *ReqRes  `json:"res,omitempty"`
+	Incon   string   `json:"inconclusive,omitempty"`
+	EvKinds []string `json:"evKinds"`
+	EvTx    []int    `json:"evTx"`
 }
 
 // RunFaulted runs rq on a copy of base with the fault (at, kind) injected for `worker`. If onlyCommits,
@@ -577,6 +599,7 @@ func RunFaulted(base *Env, baseSnap Snapshot, baseObs LedgerObs, worker string, 
 		return out
 	}
 	out.Hash = after.Hash()
+	out.Counts = after.Counts()
 	out.DumpEqual = out.Hash == baseSnap.Hash()
 	if !out.DumpEqual {
 		out.Diff = SnapDiff(baseSnap, after)
